@@ -180,6 +180,10 @@ def run(ctx):
     # what a failing datagram makes the controller drop is at most the entry this very datagram created: an error path that removes
     # whatever IKE_SA a cleartext header field selected lets one datagram take an established IKE_SA away from the daemon
     common.deleted_observed(ctx, esc, 'V4')
+    # what enters the table is an IKE_SA: the successor of a rekey is registered exactly while the old IKE_SA has one (never None, never a
+    # half-built object) - one bad entry makes every later pass of the timer sweep and of the lookups raise (shared with C16 D3)
+    from .c16 import successor_registration
+    successor_registration(ctx, esc, 'V4')
     # stray datagrams only make the loop pass its timer sweep more often: harmless as long as a sweep with nothing due does nothing,
     # i.e. deadlines and `now` are readings of the same clock
     common.one_clock(ctx, 'V2')
